@@ -33,6 +33,7 @@ MODELLED = [
     ("lex_source_recovery", "prqlc/prqlc-parser/src/lexer/mod.rs", r"pub\s+fn\s+lex_source_recovery\s*\("),
     # compile path: lexer errors and parser errors of one file carry that file's id; std.prql is source 0
     ("parse_source", "prqlc/prqlc/src/parser.rs", r"pub\(crate\)\s+fn\s+parse_source\s*\("),
+    ("lexer_errors_to_byte_spans", "prqlc/prqlc/src/parser.rs", r"pub\(crate\)\s+fn\s+lexer_errors_to_byte_spans\s*\("),
     ("load_std_lib", "prqlc/prqlc/src/semantic/mod.rs", r"pub\s+fn\s+load_std_lib\s*\("),
     ("convert_lexer_error", "prqlc/prqlc-parser/src/lexer/mod.rs", r"fn\s+convert_lexer_error\s*\("),
     # parser: token-index spans -> byte offsets of token spans
